@@ -7,6 +7,7 @@
    such streams is validated by the totality oracle (crash-isolating workers) and by observing
    that every real stream is in the image of [fl_code]. *)
 From MW Require Import PyBase Nodes Builder Flatten BuilderProofs.
+From MW Require Import HeadingFrag HeadingFragProofs.
 
 Theorem C02_build_total_partial : forall c, wf_code c -> exists t, build (fl_code c) = Ok t.
 Proof. exact build_total_lemma. Qed.
@@ -23,3 +24,10 @@ Print Assumptions C02_node_then_rest_partial.
 Example C02_truncated_stream_is_parser_error :
   build [TTemplateOpen; TText [97%N]] = Exn ParserError /\ build [TTemplateClose] = Exn ParserError.
 Proof. vm_compute. split; reflexivity. Qed.
+
+(* the heading fragment of the tokenizer (coq/HeadingFrag.v, tied to both tokenizers by tools/headfrag.py):
+   the model is a total function and the Builder never rejects its stream, for every string and depth limit *)
+Theorem C02_fragment_total : forall md s, exists c, build (frag_tokens md s) = Ok c.
+Proof. intros md s. destruct (frag_end_to_end md s) as (c & H & _). now exists c. Qed.
+
+Print Assumptions C02_fragment_total.
